@@ -942,7 +942,7 @@ def _paths_once(cfg, limit, partial):
     return out
 
 
-def _paths_unroll(cfg, limit, max_visits=4):
+def _paths_unroll(cfg, limit, max_visits=6):
     """entry -> return paths on which every block occurs at most `max_visits` times (for loops over a fixed, small
     number of items: the model of `next` on an array iterator makes all but the right iteration count contradictory)"""
     body = cfg.body
